@@ -190,7 +190,8 @@ def model_read(system, n):
 def ops_for(system, sizes):
     m = system.m
     if m[0] == 'E':
-        return []
+        # the end of the file is not the end of the reader: any record can be sought and read again
+        return [['seek', j] for j in range(len(system.recs))]
     ops = []
     for n in sizes:
         ops.append(['read', n])
